@@ -36,6 +36,7 @@ pub type Chz = std::rc::Rc<Chooser>;
 
 impl Chooser {
     pub fn new(forced: Vec<u32>, dev_budget: u32) -> Chz {
+        crate::hang::begin_execution(&forced);
         std::rc::Rc::new(Chooser {
             inner: std::cell::RefCell::new(Inner {
                 forced,
